@@ -82,12 +82,48 @@ def tight_cases(rng, n):
                 c["cols"] = [[bool(x % 2) for x in col] if q == j else col for q, col in enumerate(cols)]
                 c["writes"] = []
         cs.append(c)
+    # other element kinds (the heap model knows ints, integral floats and None only): strings whose column became nullable
+    # on the way (a None written and taken back), dates that a datetime write promotes in place, dict cells replaced by a
+    # dict with the same keys, -0.0 / 0.0
+    for _ in range(n // 3):
+        kind = rng.choice(["str", "date", "dict", "zero"])
+        rows = rng.randint(2, 5)
+        i = rng.randrange(rows)
+        if kind == "str":
+            col = [rng.choice(["ann", "bob", "cy", "", "Ann"]) for _ in range(rows)]
+            writes = rng.choice([[[i, None], [i, col[i]]], [[i, None], [i, "zed"]], [[i, "zed"]], [[i, None]]])
+        elif kind == "date":
+            col = [["d", 738000 + k] for k in range(rows)]
+            writes = rng.choice([[[i, ["dt", 738000 + i, 3600]]], [[i, ["dt", 738000 + i, 0]], [i, ["dt", 738000 + i, 63900]]],
+                                 [[i, ["d", 738100]]]])
+        elif kind == "dict":
+            col = [{"id": k, "qty": 10 * k} for k in range(rows)]
+            writes = rng.choice([[[i, {"id": i, "qty": 99}]], [[i, {"id": i, "qty": 10 * i, "x": 1}]],
+                                 [[i, col[(i + 1) % rows]], [(i + 1) % rows, col[i]]]])
+        else:
+            col = [0.0, 1.5, -0.0, 2.0, 0.0][:rows]
+            writes = [[i, -0.0 if col[i] == 0.0 and str(col[i]) == "0.0" else 0.0]]
+        other = [rng.randrange(9) for _ in range(rows)]
+        cs.append({"op": "tight", "cols": [col, other], "col": 0,
+                   "via": rng.choice(["vector", "colview"] if kind == "dict" else ["vector", "colview", "cell"]),   # a dict is a row to t[i, j] = ...
+                   "writes": writes, "fp_first": rng.random() < 0.8, "kind": kind})
     return cs
+
+
+def _dv(x):
+    import datetime as dt
+    if isinstance(x, list) and x and x[0] == "d":
+        return dt.date.fromordinal(x[1])
+    if isinstance(x, list) and x and x[0] == "dt":
+        return dt.datetime.combine(dt.date.fromordinal(x[1]), dt.time()) + dt.timedelta(seconds=x[2])
+    return x
 
 
 def _observe_tight(case):
     from serif import Table, Vector
     cols, j, via = case["cols"], case["col"], case["via"]
+    cols = [[_dv(x) for x in c] for c in cols]
+    case = dict(case, writes=[[i, _dv(x)] for i, x in case["writes"]])
     if via == "vector":
         obj = Vector(list(cols[j]), name="a")
         target = obj
@@ -95,6 +131,7 @@ def _observe_tight(case):
         obj = Table([Vector(list(c), name=f"c{q}") for q, c in enumerate(cols)])
         target = obj.cols()[j] if via in ("colview", "mixed") else None
     before = obj.fingerprint() if case["fp_first"] else None
+    start = [repr(x) for x in cols[j]] if via == "vector" else [[repr(x) for x in c] for c in cols]
     ws = case["writes"]
     if via == "vector" or via == "colview":
         for i, x in ws:
@@ -128,7 +165,7 @@ def _observe_tight(case):
         fresh = Table([Vector(list(c._underlying), name=c.name) for c in obj.cols()])
         contents = [[repr(x) for x in c._underlying] for c in obj.cols()]
     return {"before": before, "after": after, "fresh": fresh.fingerprint(), "contents": contents,
-            "again": obj.fingerprint()}
+            "again": obj.fingerprint(), "start": start}
 
 
 def streams(rng, tier):
@@ -168,6 +205,10 @@ def oracle(case, obs):
                 f"gives {obs['fresh']}")
     if obs["again"] != obs["after"]:
         return f"C16-unstable: {what}: a second call returned {obs['again']} after {obs['after']}"
+    if case.get("kind") in ("str", "date", "dict") and obs["before"] is not None and obs["start"] != obs["contents"] \
+            and obs["before"] == obs["after"]:
+        return (f"C16-insensitive: {what}: the contents went from {obs['start']} to {obs['contents']} but the fingerprint "
+                f"stayed {obs['after']}")
     return None
 
 
@@ -191,6 +232,6 @@ def nontrivial(case, obs):
 
 def describe(case, obs, stream):
     if case.get("op") == "tight":
-        return [f"tight:{case['via']}", f"tight:writes{len(case['writes'])}"]
+        return [f"tight:{case['via']}", f"tight:writes{len(case['writes'])}"] + ([f"tight:{case['kind']}"] if case.get("kind") else [])
     st = obs.get("stats") or {}
     return [f"has:{k}" for k in ("fp_calls", "fp_after_write", "writes_ok", "writes_alias") if st.get(k)]
